@@ -159,7 +159,7 @@ func (e *compatibilityEngine) NewInstantQuery(q storage.Queryable, opts *promql.
 	lplan := logicalplan.New(expr, ts, ts)
 	lplan = lplan.Optimize(e.logicalOptimizers)
 
-	exec, err := execution.New(lplan.Expr(), q, ts, ts, 0, e.lookbackDelta)
+	exec, err := execution.New(lplan.Expr(), q, ts, ts, 0, e.lookbackDeltaFor(opts))
 	if e.triggerFallback(err) {
 		e.queries.WithLabelValues("true").Inc()
 		return e.prom.NewInstantQuery(q, opts, qs, ts)
@@ -196,7 +196,7 @@ func (e *compatibilityEngine) NewRangeQuery(q storage.Queryable, opts *promql.Qu
 	lplan := logicalplan.New(expr, start, end)
 	lplan = lplan.Optimize(e.logicalOptimizers)
 
-	exec, err := execution.New(lplan.Expr(), q, start, end, step, e.lookbackDelta)
+	exec, err := execution.New(lplan.Expr(), q, start, end, step, e.lookbackDeltaFor(opts))
 	if e.triggerFallback(err) {
 		e.queries.WithLabelValues("true").Inc()
 		return e.prom.NewRangeQuery(q, opts, qs, start, end, step)
@@ -391,6 +391,14 @@ func (q *compatibilityQuery) Cancel() {
 		q.cancel()
 		q.cancel = nil
 	}
+}
+
+// lookbackDeltaFor returns the per-query lookback delta when one is given, else the engine's.
+func (e *compatibilityEngine) lookbackDeltaFor(opts *promql.QueryOpts) time.Duration {
+	if opts != nil && opts.LookbackDelta > 0 {
+		return opts.LookbackDelta
+	}
+	return e.lookbackDelta
 }
 
 func (e *compatibilityEngine) triggerFallback(err error) bool {
